@@ -222,6 +222,15 @@ def main():
     tier = a.tier if a.tier in ('quick', 'thorough') else 'quick'
     seed = int(os.environ.get('VERIF_SEED', '0') or 0)
     t0 = time.time()
+    if pid not in props.PROPS:
+        # not a claimed property: say so, decide nothing (exit 2 = undecided, never a violation)
+        na = {}
+        try:
+            na = {n['property_id']: n['reason'] for n in json.load(open(os.path.join(VERIF, 'MANIFEST.json'))).get('not_applicable', [])}
+        except Exception:
+            pass
+        print('UNDECIDED property=%s reason=%s' % (pid, ('not applicable to this technique: ' + na[pid]) if pid in na else 'unknown property id'))
+        sys.exit(2)
     P = props.PROPS[pid]
     groups = P['groups'](tier)
     if a.only:
